@@ -1,4 +1,57 @@
-(* C03 — theorems in progress; this file is replaced as they are proved *)
-From AB Require Import Check.WorldCheck.
-Theorem c03_placeholder : True. Proof. exact I. Qed.
-Print Assumptions c03_placeholder.
+(* C03 — locked or unconfirmed accounts cannot complete a login. *)
+From AB Require Import World.Step World.Exec Proofs.EvLogic Proofs.Neutral Proofs.MonadInv Proofs.Veto Proofs.NoLogin.
+Open Scope Z_scope.
+
+(* The before-auth question is refused for a locked account whenever the lock module is among
+   the loaded modules, and for an unconfirmed account whenever the confirm module is — for ANY
+   set of other modules and ANY load order (the hook list is arbitrary). *)
+Theorem c03_before_auth_refuses_locked : forall E rm h r h',
+  has_mod (e_cfg E) MLock = true -> ctx_locked E h -> fire E EvBeforeAuth rm h = (r, h') -> r <> Ok false.
+Proof. exact fire_before_auth_locked. Qed.
+Print Assumptions c03_before_auth_refuses_locked.
+
+Theorem c03_before_auth_refuses_unconfirmed : forall E rm h r h',
+  has_mod (e_cfg E) MConfirm = true -> ctx_unconfirmed h -> fire E EvBeforeAuth rm h = (r, h') -> r <> Ok false.
+Proof. exact fire_before_auth_unconfirmed. Qed.
+Print Assumptions c03_before_auth_refuses_unconfirmed.
+
+(* /login: if the named account is locked (lock loaded) or unconfirmed (confirm loaded), the
+   handler appends only uid-neutral session events, whatever password is submitted, whatever
+   storage faults occur, whatever else is loaded *)
+Theorem c03_login_refused : forall E h u,
+  ulookup (aget (pid_field E) (values E)) (s_users (h_st h)) = Some u -> must_refuse E u ->
+  neutral_from (login_post E) h.
+Proof. exact login_post_refused_lemma. Qed.
+Print Assumptions c03_login_refused.
+
+(* /otp/login: likewise, even with a valid one-time password (which is still consumed) *)
+Theorem c03_otp_login_refused : forall E h u,
+  ulookup (aget (pid_field E) (values E)) (s_users (h_st h)) = Some u -> must_refuse E u ->
+  neutral_from (otp_login_post E) h.
+Proof. exact otp_login_post_refused_lemma. Qed.
+Print Assumptions c03_otp_login_refused.
+
+(* The full statement of C03 is FALSE of the faithful model for one path (known finding, not
+   repaired, see known_findings.json): the confirm module does not hook the OAuth2 event.
+   Witness: confirm + oauth2 loaded, an OAuth2 account whose confirmation was restarted, a
+   matching callback -> the session is logged in.  The correspondence check replays exactly
+   this history on the implementation (corpus/c03.jsonl). *)
+Definition c03_w_cfg : config :=
+  mkConfig [MAuth; MConfirm; MOAuth2] false false false false false false 3 300 3600 600 3600 (bs "/auth")
+           false false false POST GET false [] RespNotFound [bs "google"] [].
+Definition c03_w_pid := make_oauth2_pid (bs "google") (bs "100").
+Definition c03_w_user : user :=
+  blank_user <| u_pid := c03_w_pid |> <| u_ouid := bs "100" |> <| u_oprov := bs "google" |> <| u_confirmed := false |>.
+Definition c03_w_world : world :=
+  mkWorld (mkStorage [(c03_w_pid, c03_w_user)] []) [(bs "b1", [(k_oauth_state, bs "s")])] [].
+Definition c03_w_req : request :=
+  mkRequest (bs "b1") GET (ROAuthCallback (bs "google")) (bs "/oauth2/callback/google") (bs "state=s") [(f_state, bs "s")] [] false.
+Definition c03_w_oracle : oracle :=
+  mkOracle 1000 [] [] [] (mkPA true true (bs "100") (bs "o@x.io") (bs "t") [] zero_time).
+
+Theorem c03_oauth2_unconfirmed_refuted :
+  has_mod c03_w_cfg MConfirm = true /\
+  u_confirmed c03_w_user = false /\
+  alookup k_uid (jar_get (bs "b1") (w_sess (fst (step XC c03_w_cfg c03_w_world (AReq c03_w_req) c03_w_oracle)))) = Some c03_w_pid.
+Proof. vm_compute. repeat split. Qed.
+Print Assumptions c03_oauth2_unconfirmed_refuted.
